@@ -298,6 +298,11 @@ class PieceDomain(Domain):
             return [("ok", TOP, state)]
         if name in ("str",) and args and isinstance(args[0], (Piece, Made)):
             return [("ok", args[0], state)]
+        if isinstance(node.func, ast.Name) and self.fn is not None and node.func.id in self.fn.module.functions:
+            # a module-level helper of the normaliser (e.g. an extracted host / port splitter): interpreted in line
+            res = self.inline(node, self.fn.module.functions[node.func.id], args, kwargs, state)
+            if res is not None:
+                return res
         src = [a for a in list(args) + list(kwargs.values()) if isinstance(a, (Piece, Made))]
         if src:
             return [("ok", Opaque("made-object:%s(...)" % name), state)]
@@ -590,7 +595,7 @@ def run(chk):
         n_ret += 1
         bad = _rewritten(v)
         r5.expect(bad is None, "normalize_server_spec returns pieces of its argument", "normalize_server_spec:host-rewritten", "normalize_server_spec returns %s: the host (or path) is no longer a piece of the text the caller gave, so spellings that the documented rules tell apart can collapse and spellings that are equal can get different node names (e.g. `Cache-A:11211` as a string vs. the tuple ('Cache-A', 11211))" % (bad,), fn=ns, node=ns.node, witness=fmt_trace(t))
-    r5.floor("return paths of normalize_server_spec", n_ret, 3)
+    r5.floor("return paths of normalize_server_spec", n_ret, 2)
     chk.assume("scores are non-negative integers (C14.R1), so the initial best score -1 is below every score")
     chk.assume("node names are str (HashClient._make_client_key yields str), so str(node) is the identity")
     chk.assume("HRW theorem: the argmax of per-node scores that depend only on (node, key) moves a key only from a removed node / onto an added node")
